@@ -248,7 +248,8 @@ func canonMapEntry(u *TSpec, data []byte, cfg Cfg, st *WalkStats, depth int) ([]
 			return nil, werr("entry tag: %v", err)
 		}
 		idx, wt := int(tag>>3), int(tag&7)
-		if idx < next || idx > 2 {
+		repeatedValue := idx == 2 && next == 3 && IsProtoSlice(u.Elem, "", cfg) // one field per element
+		if (idx < next && !repeatedValue) || idx > 2 {
 			return nil, werr("entry has field %d (expected >= %d, <= 2)", idx, next)
 		}
 		next = idx + 1
